@@ -44,6 +44,9 @@ Inductive ref :=
                                                     (no statement form uses it: RefSkeletonProofs) *)
 | RNew (n : bytes)                               (* Builder.Ident of a NEW name (ALTER TYPE ... RENAME TO n):
                                                     a definition, bare by SQL syntax, not a reference *)
+| RRaw (n : bytes)                               (* round 5: a type name written RAW -- FormatType's text through
+                                                    Builder.P: no quoting, no qualifying call (alterType, the
+                                                    "sequence was dropped" arm: serial -> enum) *)
 | RLit (ns : option bytes) (n : bytes).          (* round 5: state.schemaPrefix(ns) + %q INSIDE a string literal:
                                                     alterType, SET DEFAULT nextval('<prefix>"<seq>"') *)
 
@@ -58,10 +61,13 @@ Definition ref_chain (q : option bytes) (r : ref) : list bytes :=
   | RPrefixedCol ns t c => qual_prefix q ns ++ [t; c]
   | RBare n => [n]
   | RNew n => [n]
+  | RRaw n => [n]
   | RLit ns n => qual_prefix q ns ++ [n]
   end.
 (* written inside a string literal (the harness reads these out of the literals of the statement) *)
 Definition in_literal (r : ref) : bool := match r with RLit _ _ => true | _ => false end.
+(* written as a quoted identifier chain (what the tokenizer observes as a chain) *)
+Definition quoted_chain (r : ref) : bool := match r with RLit _ _ | RRaw _ => false | _ => true end.
 
 Record stmt := mkStmt { s_rev : bool; s_head : bytes; s_refs : list ref }.
 
@@ -196,14 +202,15 @@ Definition SerialType_sequence (sn t c : bytes) : bytes :=
 
 (* alterType (sql/postgres/migrate_oss.go), references of the ALTER COLUMN clause(s) of a type change
    of column [c] of table [o] towards (enum [te], serial [ts]) from serial [fs]:
-     fromHas && !toHas : DROP DEFAULT [, ALTER COLUMN c TYPE FormatType(To)]      -- no reference
+     fromHas && !toHas : DROP DEFAULT [, ALTER COLUMN c TYPE FormatType(To)]      -- FormatType of an enum type
+                                                                                     is its bare name: RRaw
      !fromHas && toHas : SET DEFAULT nextval('<schemaPrefix(t.Schema)>%q')        -- in a literal
      fromHas && toHas  : TYPE <integer type>                                       -- none
      default           : TYPE enumIdent(To) | FormatType(To) *)
 Definition alter_type_refs (o : obj) (c : bytes) (te : option (option bytes * bytes))
                            (fs ts : option bytes) : list ref :=
   match fs, ts with
-  | Some _, None => []
+  | Some _, None => match te with Some (_, n) => [RRaw n] | None => [] end
   | None, Some sn => [RLit (o_schema o) (SerialType_sequence sn (o_name o) c)]
   | Some _, Some _ => []
   | None, None => match te with Some (ns, n) => [RType ns n] | None => [] end
@@ -364,7 +371,7 @@ Definition plan_chains (pg : bool) (q : option bytes) (cs : list change) :=
    chains written inside string literals (nextval('...')) are observed separately *)
 Definition stmt_obs (q : option bytes) (s : stmt) : bool * bytes * list (list bytes) * list (list bytes) :=
   (s_rev s, s_head s,
-   map (ref_chain q) (filter (fun r => negb (in_literal r)) (s_refs s)),
+   map (ref_chain q) (filter quoted_chain (s_refs s)),
    map (ref_chain q) (filter in_literal (s_refs s))).
 Definition plan_obs (pg : bool) (q : option bytes) (cs : list change) :=
   map (stmt_obs q) (plan_skel pg cs).
